@@ -19,6 +19,8 @@ import Hy.Drv.PortUnion
 import Hy.Drv.Hop
 import Hy.Drv.UdpAcl
 import Hy.Drv.UdpSession
+import Hy.Drv.Ring
+import Hy.Drv.Bbr
 
 open Hy.Drv
 
@@ -59,4 +61,7 @@ def main (args : List String) : IO UInt32 := do
   | ["hop"] => loopState stdin stdout Hop.step Hop.init; return 0
   | ["udpacl"] => loopState stdin stdout UdpAcl.step UdpAcl.init; return 0
   | ["udpsession"] => loopState stdin stdout UdpSession.step UdpSession.init; return 0
+  | ["ring"] => loopState stdin stdout Ring.ringStep Ring.ringInit; return 0
+  | ["bbr"] => loopState stdin stdout Bbr.step Bbr.init; return 0
+  | ["pnq"] => loopState stdin stdout Ring.pnqStep Ring.pnqInit; return 0
   | _ => IO.eprintln "usage: hydrv <component>"; return 2
